@@ -41,17 +41,39 @@ def make_spec(cfg, conv):
                        cfg.get("class_thresholds") or {}, conv)
 
 
+def generic_canon(obj, now):
+    """Canonical form of *all* instance state (robust to renamed or added fields): numbers that
+    look like instants on the virtual clock (>= 500) are time-translated, containers recursed,
+    locks / callables / the clock itself skipped.  Expired entries are *not* dropped."""
+    import threading as _th
+    lock_types = (type(_th.Lock()), type(_th.RLock()))
+
+    def conv(v):
+        if isinstance(v, bool) or v is None or isinstance(v, str):
+            return v
+        if isinstance(v, (int, float)):
+            if isinstance(v, float) and v >= 500.0:
+                return ("t", now - v)
+            return v
+        if hasattr(v, "value") and hasattr(type(v), "__members__"):
+            return ("e", str(v.value) if not isinstance(v.value, int) else v.name)
+        if isinstance(v, dict):
+            return ("d", tuple(sorted((repr(conv(k)), conv(x)) for k, x in v.items())))
+        if isinstance(v, (list, tuple)) or type(v).__name__ == "deque":
+            return ("l", tuple(conv(x) for x in v))
+        if isinstance(v, (set, frozenset)):
+            return ("s", tuple(sorted(repr(conv(x)) for x in v)))
+        if isinstance(v, lock_types) or callable(v) or hasattr(v, "acquire"):
+            return None
+        return ("o", type(v).__name__)
+
+    return tuple((k, conv(v)) for k, v in sorted(vars(obj).items())
+                 if conv(v) is not None or v is None)
+
+
 def breaker_canon(b, now):
-    """Time-translated implementation state.  Expired entries are *not* dropped."""
-    st = getattr(b, "_state", None)
-    oa = getattr(b, "_opened_at", None)
-    fl = getattr(b, "_failures", ())
-    cf = getattr(b, "_class_failures", {})
-    return (getattr(st, "value", st), bool(getattr(b, "_probe_in_flight", False)),
-            None if oa is None else now - oa,
-            tuple(now - t for t in fl),
-            tuple(sorted((getattr(k, "name", str(k)), tuple(now - t for t in v))
-                         for k, v in cf.items())))
+    """Time-translated implementation state of a CircuitBreaker (all instance attributes)."""
+    return generic_canon(b, now)
 
 
 class Clock:
@@ -239,7 +261,7 @@ def probe_differential(cfg, h1, h2, classes):
 # ---------------------------------------------------------------------------------------------
 
 def budget_canon(b, now):
-    return tuple(now - t for t in getattr(b, "_events", ()))
+    return generic_canon(b, now)
 
 
 def replay_budget(cfg, hist):
